@@ -474,6 +474,7 @@ func (n *NSQD) Exit() {
 		topic.Close()
 	}
 	n.Unlock()
+	verifPoint("exit:topics-closed")
 
 	n.logf(LOG_INFO, "NSQ: stopping subsystems")
 	close(n.exitChan)
